@@ -72,7 +72,9 @@ def _is_attr_call(call, attr):
 
 
 class BalanceDomain(Domain):
-    def __init__(self, model, fi, rm, counters, helpers=None):
+    def __init__(self, model, fi, rm, counters, helpers=None,
+                 flag_helpers=None):
+        self.flag_helpers = flag_helpers or {}
         self.model = model
         self.fi = fi
         self.rm = rm
@@ -93,6 +95,52 @@ class BalanceDomain(Domain):
         self.flaggable = {k for k, v in cnt.items() if v > 1}
 
     # ----------------------------------------------------------- helpers
+    def flag_helper_call(self, stmt, st):
+        """`name = helper(push, ...)` where the helper pushes through the
+        callable it is handed and returns a constant telling whether it
+        did: -> (name, [(returned constant, depth change), ...])."""
+        if not self.flag_helpers or not isinstance(stmt, ast.Assign) or \
+                len(stmt.targets) != 1 or \
+                not isinstance(stmt.targets[0], ast.Name) or \
+                not isinstance(stmt.value, ast.Call):
+            return None
+        call = stmt.value
+        for t in self.model.resolve_callee(call.func, self.fi):
+            if t[0] != 'func' or t[1].where not in self.flag_helpers:
+                continue
+            idx, summary = self.flag_helpers[t[1].where]
+            off = 1 if (t[1].cls is not None and
+                        isinstance(call.func, ast.Attribute)) else 0
+            i = idx - off
+            if not 0 <= i < len(call.args):
+                return None
+            a = call.args[i]
+            kind = self.push_pop(ast.Call(func=a, args=[], keywords=[]), st)
+            if kind is None or kind[0] != 'push':
+                return None
+            if kind[1]:       # pushes on a fresh namespace: no obligation
+                summary = [(rv, 0) for rv, _ in summary]
+            return stmt.targets[0].id, summary
+        return None
+
+    def simple(self, stmt, st):
+        fh = self.flag_helper_call(stmt, st)
+        if fh is None:
+            return Domain.simple(self, stmt, st)
+        from ..flow import Outcome
+        name, summary = fh
+        outs = [Outcome(RAISE, st, ANY, stmt)]
+        for rv, k in summary:
+            ns = st.copy()
+            if ns.depth is not None:
+                ns.depth += k
+            if ns.rel is not None:
+                ns.rel += k
+            ns = self.assign(stmt.targets[0], ast.Constant(value=rv), ns,
+                             stmt)
+            outs.append(Outcome(NORMAL, ns))
+        return outs
+
     def helper_effect(self, call):
         """Net stack effect of calling a repo helper that pushes / pops on
         the namespace it is given (consistent on all its normal exits)."""
@@ -496,10 +544,11 @@ def pushing_functions(model):
     return out
 
 
-def analyse_function(model, fi, counters, rm, helpers=None):
-    dom = BalanceDomain(model, fi, rm, counters, helpers)
+def analyse_function(model, fi, counters, rm, helpers=None,
+                     flag_helpers=None, init=None):
+    dom = BalanceDomain(model, fi, rm, counters, helpers, flag_helpers)
     it = Interp(dom)
-    outs = it.run(fi.node, S())
+    outs = it.run(fi.node, init or S())
     if it.overflow:
         raise AnalysisError(f'C08: state budget exceeded in {fi.where}')
     return dom, outs
@@ -516,9 +565,16 @@ def rule_balance(model):
     # or only pops, for its caller): summarised and accounted for at the
     # call sites instead of being judged on their own
     helpers = {}
+    fhelp = flag_helper_summaries(model, funcs, rm)
+    for w, (i, pairs) in sorted(fhelp.items()):
+        r1.instance(w, 'def ' + w.split('.')[-1].split(':')[-1],
+                    'helper pushing through the callable it is given; '
+                    f'(returned value, depth change) = {pairs} (accounted '
+                    'for at its call sites)')
     for _ in range(2):
         for fi, counters in funcs:
-            dom, outs = analyse_function(model, fi, counters, rm, helpers)
+            dom, outs = analyse_function(model, fi, counters, rm, helpers,
+                                         fhelp)
             normal = {o.state.depth for o in outs
                       if o.kind in (NORMAL, RETURN)}
             exc = {o.state.depth for o in outs if o.kind == RAISE}
@@ -549,7 +605,8 @@ def rule_balance(model):
                         f'helper with net effect {helpers[fi.where]:+d} '
                         '(accounted for at its call sites)')
             continue
-        dom, outs = analyse_function(model, fi, counters, rm, helpers)
+        dom, outs = analyse_function(model, fi, counters, rm, helpers,
+                                     fhelp)
         exits = [o for o in outs if o.kind in (NORMAL, RETURN, RAISE)]
         total_exits += len(exits)
         bad = 0
@@ -606,6 +663,52 @@ def rule_balance(model):
     r1.control('control: pop after body without finally',
                _control_fires(model))
     return [r1, r2]
+
+
+def flag_helper_summaries(model, funcs, rm):
+    """Functions that are handed a push callable by a pushing function and
+    return a constant on every path: where -> (parameter index,
+    [(returned constant, depth change)])."""
+    out = {}
+    for fi, _ in funcs:
+        for c in own_nodes(fi.node):
+            if not isinstance(c, ast.Call):
+                continue
+            for i, a in enumerate(c.args):
+                if not (isinstance(a, ast.Name) and any(
+                        isinstance(d, ast.Attribute) and d.attr == '_push'
+                        for d in model.local_defs(fi, a.id))):
+                    continue
+                for t in model.resolve_callee(c.func, fi):
+                    if t[0] != 'func' or t[1].where in out:
+                        continue
+                    h = t[1]
+                    off = 1 if (h.cls is not None and
+                                isinstance(c.func, ast.Attribute)) else 0
+                    params = h.params()
+                    if i + off >= len(params):
+                        continue
+                    init = S()
+                    init.alias[params[i + off]] = ('push', False)
+                    dom, outs = analyse_function(model, h, set(), rm,
+                                                 init=init)
+                    pairs = set()
+                    good = True
+                    for o in outs:
+                        if o.kind == RAISE:
+                            good = good and o.state.depth == 0
+                        elif o.kind == RETURN and o.node is not None and \
+                                getattr(o.node, 'value', None) is not None:
+                            ok, v = dom.const_of(o.node.value, o.state)
+                            good = good and ok and \
+                                o.state.depth is not None
+                            pairs.add((v, o.state.depth))
+                        elif o.kind in (NORMAL, RETURN):
+                            good = good and o.state.depth is not None
+                            pairs.add((None, o.state.depth))
+                    if good and pairs and any(k for _, k in pairs):
+                        out[h.where] = (i + off, sorted(pairs, key=repr))
+    return out
 
 
 def _has_callers(model, fi):
